@@ -111,7 +111,7 @@ def main():
     ctx = Ctx(pid, args.tier, seed)
     broken = []          # proof obligations / correspondences that no longer check
     obligations = list(plugin.THEOREMS)
-    discharged = 0
+    discharged = 0; rechecked = 0
     axioms_used = {}
 
     # 1. translate
@@ -149,8 +149,9 @@ def main():
                 if okt: discharged += 1
                 else: broken.append("theorem %s: %s" % (t, a))
             if args.tier == "thorough":
-                okc, outc = leanchk.leanchecker(plugin.MODULE)
-                if not okc: broken.append("leanchecker %s: %s" % (plugin.MODULE, outc[-400:]))
+                okc, outc, nmod = leanchk.leanchecker_closure([plugin.MODULE] + list(getattr(plugin, "EXTRA_MODULES", [])))
+                rechecked = nmod
+                if not okc: broken.append("leanchecker: %s" % outc[-600:])
     else:
         discharged = len(obligations)
 
@@ -219,7 +220,7 @@ def main():
             "coverage": {
                 "obligations": max(1, len(obligations)), "discharged": discharged,
                 "checker_cmd": "cd lean && lake build %s && lake env lean <#print axioms of each theorem>%s" % (
-                    plugin.MODULE, " && lake env leanchecker " + plugin.MODULE if args.tier == "thorough" else ""),
+                    plugin.MODULE, " && lake env leanchecker <each of the %d project modules in the import closure of the property's modules>" % rechecked if args.tier == "thorough" else ""),
                 "trusted_base": GLOBAL_TRUSTED + list(getattr(plugin, "TRUSTED", [])),
                 "theorems": obligations, "partial_theorems": getattr(plugin, "PARTIAL", {}),
                 "axioms": axioms_used,
